@@ -104,7 +104,7 @@ def fuzz_work(job):
 
 
 CANCEL_CHART = '''<scxml xmlns="http://www.w3.org/2005/07/scxml" version="1.0" datamodel="%(dm)s">
- <state id="a"><onexit><log label="XA" expr="1"/></onexit>
+ <state id="a"><onexit><send event="never" type="unsupported-io-processor"/><log label="XA0" expr="1"/></onexit><onexit><log label="XA" expr="1"/></onexit>
   <state id="a1"><onexit><log label="XA1" expr="1"/></onexit>%(delayed)s<transition event="go" target="a2"/></state>
   <state id="a2"><onexit><log label="XA2" expr="1"/></onexit></state>
  </state>
@@ -130,7 +130,7 @@ def cancel_work(job):
     if not res or res[-1] != -1: rec['bad'].append(('cancel-did-not-finish', {'results': res[-10:]}))
     logs = collections.Counter(x[4].split(':')[0] for x in recs if x[3] == 'L')
     active_a2 = any(x[3] == 'NB' and x[4].endswith(' a2') for x in recs)
-    want = {'XA': 1, 'XA2' if active_a2 else 'XA1': 1}
+    want = {'XA': 1, 'XA2' if active_a2 else 'XA1': 1, 'XA0': 0}      # a's first exit handler fails before its log: only that block is cut short
     if active_a2: want['XA1'] = 1
     for k, v in want.items():
         if logs.get(k, 0) != v: rec['bad'].append(('onexit-handlers-on-cancel:%s-ran-%d-times' % (k, logs.get(k, 0)), {'logs': dict(logs)})); break
@@ -263,6 +263,20 @@ def main(tier, replay):
         for key, det in rec['bad']: chk.report(key, {'job': rec['job'], 'detail': det}, 'churn %s: %s' % (rec['job'][:3], key))
     chk.add('create_destroy_cycles', cyc); chk.add('forced_preloop_window_runs_reached', reached)
     if reached == 0: chk.inconc('the forced deq.run.preloop window was never reached')
+    # (3b) reset() / destruction while the timer thread sits in a delivery (forced windows shared with C09): must return, no crash
+    from vf.checks import c09
+    common.build('plain'); common.harness('vthr', 'plain')
+    wjobs = [(('tsan', 'asan', 'plain')[k % 3], name, chk.seed * 1000 + k, ('lua', 'promela')[k % 2], ('large', 'fast')[(k // 2) % 2], outdir)
+             for name in ('reset-in-window', 'destroy-in-window', 'destroy-in-long-window') for k in range(3 if q else 40)]
+    wreached = collections.Counter()
+    for rec in common.pmap(c09.run_script, wjobs, workers=min(8, common.NPROC)):
+        chk.count(); sigs |= rec.get('sigs', set())
+        if rec['reached']: wreached[rec['job'][1]] += 1
+        if not rec['bad']: chk.nontrivial('window:%s' % rec['job'])
+        for key, det in rec['bad']: chk.report(key, {'job': rec['job'], 'xml': rec['xml'], 'detail': det}, 'script %s: %s' % (rec['job'], key))
+    chk.add('delivery_windows_reached', dict(wreached))
+    for name in ('reset-in-window', 'destroy-in-window'):
+        if wreached[name] == 0: chk.inconc('forced window of script %s was never reached' % name)
     # (4) reset equivalence
     n4 = 200 if q else 6000; cmp_ = 0
     for out in common.pmap(reset_work, [(dbin, list(range(base + 500000 + i, base + 500000 + min(i + 20, n4)))) for i in range(0, n4, 20)]):
@@ -276,7 +290,7 @@ def main(tier, replay):
     shutil.rmtree(outdir, ignore_errors=True)
     chk.rule = ('(1) seeded API scripts of 3-40 operations checked against the life-cycle automaton, crashes attributed to the last operation; (2) stepper blocked in step() + cancel()/receive() from another thread '
                 '(with and without pending delayed events), must reach FINISHED with every onexit once and destruction returning; (3) create/destroy churn with seeded yields and the forced timer-thread window; '
-                '(4) trace(h1; reset; h2) = trace(fresh h2). distinct_nontrivial = runs/scripts without violation')
+                '(3b) reset()/destruction while the timer thread is parked in a delivery; (4) trace(h1; reset; h2) = trace(fresh h2), also after cancel and mid-macrostep. distinct_nontrivial = runs/scripts without violation')
     chk.assumptions = ['"always terminates" = terminated within the watchdog in every explored schedule; every hang comes with two gdb stack samples', 'serialize() in an unstable state may throw (documented)']
     chk.min_distinct = 100
     chk.finish()
